@@ -460,3 +460,12 @@ def prefixes(ctx):
             if g != want:
                 ctx.violate('bitcoinlib/data/networks.json', 'network %s: %s is %s, published value is %s' % (net, name, g, want), None,
                             'addresses / WIFs produced for that network are not the ones its nodes and wallets use')
+
+
+@PROP.obligation('C04.cache-keys')
+def cache_keys(ctx):
+    """Memoisation (public key forms and addresses): every container that a function both looks up and stores into is found (none exists on the reference tree; a
+    fixture self-test keeps the detector honest) and the key that is looked up must carry every parameter - and for containers shared
+    between objects every attribute of self - that the cached value depends on through data or control flow."""
+    from .common_cache import cache_keys as run
+    run(ctx, [('keys', lambda q: q.startswith('Key.') or q.startswith('Address.') or '.' not in q), ('encoding', lambda q: True)], 'Key / Address methods, keys and encoding functions')
